@@ -16,7 +16,7 @@ RULE = ("every sequence over the alphabet {connect-ok, connect via public-key ap
         "during a connect attempt; connected => the operation returns the correct result. random: sequences of length 5-8. "
         "non-trivial = contains at least one operation attempted while disconnected after the first symbol; distinct = distinct sequences")
 ASSUMPTIONS = ["when both an empty device path and a missing connection apply, either documented exception is accepted"]
-SHARDS = {"quick": 8, "thorough": 16}
+SHARDS = {"quick": 16, "thorough": 16}
 TIME_BUDGET = {"quick": 300, "thorough": 1800}
 FLOORS = {"quick": {"steps_disconnected": 5000, "steps_connected": 1500, "available_samples_during_connect": 2000, "distinct": 3000},
           "thorough": {"steps_disconnected": 100000, "steps_connected": 60000}}
@@ -27,7 +27,7 @@ ALPHABET = (["connect-ok", "connect-pubkey", "connect-refused", "connect-nokeys"
             + ["push-dir", "stream-create", "stream-next"] + ["connect-keytimeout", "pull-bytesio", "push-bytesio"])
 CONNECT_FAILS = ["connect-refused", "connect-nokeys", "connect-silent", "connect-keytimeout"]
 NBASE = len(ALPHABET)        # the exhaustive enumeration runs over these; the symbols below appear in directed and random sequences only
-EXTRA = ["pushdir-empty", "shell-emptycmd", "exec_out-emptycmd", "streaming_shell-emptycmd", "shell-blankcmd"]
+EXTRA = ["pushdir-empty", "shell-emptycmd", "exec_out-emptycmd", "streaming_shell-emptycmd", "shell-blankcmd", "connect-maxdata0", "push-fail"]
 ALPHABET = ALPHABET + EXTRA
 
 
@@ -48,6 +48,7 @@ def gen_cases(tier, seed):
             directed.append(["connect-pubkey", op, op, gone, op, "connect-ok", op])
     for x in EXTRA:
         directed += [[x], ["connect-ok", x], ["connect-ok", "close", x], ["connect-pubkey", x, "close", x]] + [["connect-ok", g, x] for g in CONNECT_FAILS]
+        directed += [["connect-ok", x, "shell", "stat"], ["connect-ok", "connect-maxdata0", x, "shell"], ["connect-maxdata0", x, "push", "close", "shell"]]
     for impl in ("sync", "async"):
         for d in directed:
             yield {"kind": "directed", "impl": impl, "seq": [A[x] for x in d]}
@@ -114,8 +115,9 @@ def run_sequence(impl, seq, stats, tmp):
                 sim.silent = False
                 sim.auth = simdev.AuthPlan()
                 sess.core.refuse_connect = None
+                sim.maxdata = 0 if name == "connect-maxdata0" else 4096       # (a device may announce maxdata 0: the connection is still a connection)
                 kw = {"transport_timeout_s": 1.0, "read_timeout_s": 1.0}
-                expect_ok = name in ("connect-ok", "connect-pubkey")
+                expect_ok = name in ("connect-ok", "connect-pubkey", "connect-maxdata0")
                 cb_seen = []
                 if name == "connect-refused":
                     sess.core.refuse_connect = ConnectionRefusedError(111, "Connection refused (deliberate)")
@@ -154,6 +156,20 @@ def run_sequence(impl, seq, stats, tmp):
                     want = {"connect-nokeys": "DeviceAuthError"}.get(name)
                     if want and out.exc_name() != want:
                         viol.append({"mechanism": "connect-exception", "detail": "%s raised %s, expected %s" % (where, out.brief(100), want)})
+            elif name == "push-fail":
+                # the device rejects the transfer: that is the transfer's failure, not the connection's
+                sim.sync_plan.send_fail[b"/pf"] = ("send", b"read-only file system")
+                out = sess.call("push", io.BytesIO(b"data"), "/pf")
+                if model:
+                    stats["steps_connected"] += 1
+                    if out.ok or out.exc_name() != "PushFailedError":
+                        viol.append({"mechanism": "connected-op:push-fail", "detail": "%s: %s" % (where, out.brief(100))})
+                else:
+                    stats["steps_disconnected"] += 1
+                    if out.ok or out.exc_name() != "AdbConnectionError":
+                        viol.append({"mechanism": "wrong-exception" if not out.ok else "no-exception", "detail": "%s gave %s, expected AdbConnectionError" % (where, out.brief(100))})
+                    if len(sess.core.written) != before_written:
+                        viol.append({"mechanism": "bytes-written", "detail": "%s wrote %d bytes to the transport" % (where, len(sess.core.written) - before_written)})
             elif name == "stream-create":
                 # creating the generator must not touch the transport whatever the state; whether it may raise right away is not specified
                 try:
